@@ -343,10 +343,14 @@ func c06Exec(raw json.RawMessage) Result {
 		impl["files"] = files
 	} else {
 		w := newWorld(op.Atomics, nil)
+		w.bufferOdd = true
 		lg := c06Logger(&op, w)
 		fe := frontEndMap[op.FE]
 		out := runGuarded(func() { fe.call(lg, zapcore.Level(l), "m", w.fields(op.Fs)) })
-		seq = w.rec.take()
+		seq = w.rec.take() // taken BEFORE the buffered syncers are stopped: only what reached the destination by now counts
+		for _, b := range w.buffered {
+			_ = b.Stop()
+		}
 		obs = w.drainObs()
 		switch {
 		case strings.HasPrefix(out, "panic:"):
